@@ -15,6 +15,7 @@ let () =
     | "doubles" -> H_doubles.doubles_case
     | "tool" -> H_tool.tool_case
     | "xml" -> H_xml.xml_case
+    | "faults" -> H_faults.faults_case
     | _ -> failwith ("unknown model " ^ sub) in
   (try
     while true do
